@@ -836,7 +836,8 @@ class ResultHandler(PoolThread):
                 return
 
             if self.on_ready_counters:
-                worker_pid = next(iter(item.worker_pids()), None)
+                # credit the worker that produced this result
+                worker_pid = item._worker_pid_for(i)
                 if worker_pid and worker_pid in self.on_ready_counters:
                     on_ready_counter = self.on_ready_counters[worker_pid]
                     with on_ready_counter.get_lock():
@@ -1798,6 +1799,9 @@ class ApplyResult:
     def worker_pids(self):
         return [self._worker_pid] if self._worker_pid else []
 
+    def _worker_pid_for(self, i):
+        return self._worker_pid
+
     def wait(self, timeout=None):
         self._event.wait(timeout)
 
@@ -1939,6 +1943,12 @@ class MapResult(ApplyResult):
     def worker_pids(self):
         return [pid for pid in self._worker_pid if pid]
 
+    def _worker_pid_for(self, i):
+        try:
+            return self._worker_pid[i * self._chunksize]
+        except (IndexError, TypeError):
+            return None
+
 #
 # Class whose instances are returned by `Pool.imap()`
 #
@@ -1958,7 +1968,7 @@ class IMapIterator:
         self._length = None
         self._ready = False
         self._unsorted = {}
-        self._worker_pids = []
+        self._worker_pids = {}
         self._lost_worker_timeout = lost_worker_timeout
         cache[self._job] = self
 
@@ -2015,7 +2025,7 @@ class IMapIterator:
                 del self._cache[self._job]
 
     def _ack(self, i, time_accepted, pid, *args):
-        self._worker_pids.append(pid)
+        self._worker_pids[i] = pid
 
     def _set_terminated(self, signum=None):
         try:
@@ -2027,7 +2037,10 @@ class IMapIterator:
         return self._ready
 
     def worker_pids(self):
-        return self._worker_pids
+        return list(self._worker_pids.values())
+
+    def _worker_pid_for(self, i):
+        return self._worker_pids.get(i)
 
 #
 # Class whose instances are returned by `Pool.imap_unordered()`
